@@ -6,6 +6,7 @@ package main
 import (
 	"encoding/json"
 	"flag"
+	"fmt"
 
 	"go.starlark.net/starlark"
 	"go.starlark.net/syntax"
@@ -41,9 +42,18 @@ func init() {
 				return err
 			}
 			pre := h.predeclared()
-			_, prog, err := starlark.SourceProgramOptions(opts, "case.star", c.Src, pre.Has)
+			var prog *starlark.Program
+			var err error
+			func() {
+				defer func() {
+					if r := recover(); r != nil {
+						err = fmt.Errorf("compiler panic: %v", r) // reported by `vh eval` for the same program
+					}
+				}()
+				_, prog, err = starlark.SourceProgramOptions(opts, "case.star", c.Src, pre.Has)
+			}()
 			if err != nil {
-				return nil // static errors are not this command's subject
+				return nil // static errors and compiler panics are not this command's subject
 			}
 			for _, f := range starlark.VerifProgramFuncodes(prog) {
 				code := []obj{}
